@@ -1,4 +1,4 @@
-From Tetl Require Import Lib.Base C08.Model C08.Spec C08.ModelExt C08.SpecExt.
+From Tetl Require Import Lib.Base C08.Model C08.Spec C08.ModelExt C08.SpecExt C08.ModelTraits C08.SpecTraits.
 Require Extraction.
 Require Import ExtrOcamlBasic.
 Extraction Language OCaml.
@@ -26,4 +26,8 @@ Extraction "C08_model.ml" wire_anchor
   find_last_not_of_d_m find_last_not_of_c_d_m find_last_not_of_p_d_m
   substr_d0_m substr_d1_m copy_d_m rel6_m rel_pl_m rel_pr_m front_m back_m index_m swap_m
   find_d_s rfind_d_s find_first_of_d_s find_first_not_of_d_s find_last_of_d_s find_last_not_of_d_s
-  substr_d0_s substr_d1_s copy_d_s index_s front_s back_s.
+  substr_d0_s substr_d1_s copy_d_s index_s front_s back_s
+  (* char_traits members as operations (ModelTraits.v / SpecTraits.v) *)
+  tr_move_m tr_copy_m tr_fill_m traits_compare traits_find tr_eq_m tr_lt_m tr_assign_m
+  eof_m to_int_type_m to_char_type_m eq_int_type_m not_eof_m
+  move_s fill_s tr_compare_s tr_find_s tr_length_s eof_s to_int_type_s to_char_type_s char_lt.
